@@ -87,6 +87,33 @@ def build_service(rec, behaviours=None):
                     raise RuntimeError('secret-midstream')
                 yield bytes([97 + (i % 26)]) * 5
 
+        @rpc(Integer, Integer, Unicode, _returns=ByteArray)
+        def lazy(ctx, n, fail_after, how):
+            # the same streamed body from an ordinary method that returns an iterator object (not a generator)
+            rec.enter('lazy', n, fail_after, how)
+
+            class Chunks(object):
+                def __init__(self):
+                    self.i = 0
+
+                def __iter__(self):
+                    return self
+
+                def __next__(self):
+                    i = self.i
+                    if i >= (n or 0):
+                        raise StopIteration()
+                    if how and i == fail_after:
+                        if how != 'always':
+                            self.i = 10 ** 9        # (fails once, then it is exhausted; 'always': fails whenever it is asked again)
+                        if how == 'fault':
+                            raise Fault('Client.MidStream', 'failed after %d chunks' % i)
+                        raise RuntimeError('secret-midstream')
+                    self.i += 1
+                    return bytes([97 + (i % 26)]) * 5
+                next = __next__
+            return Chunks()
+
         @rpc(Unicode, Unicode, _returns=Integer)
         def fail(ctx, code, msg):
             rec.enter('fail', code, msg)
